@@ -1,6 +1,7 @@
 """C12 - cache returns only right-key, unexpired results and retains the LRU `limit`."""
 import random
 
+from harness.decoys import decoyed
 from harness.legs import cfg_text, gen_traces, leg_m, leg_mutant, leg_r, leg_t_gen
 from harness.vloop import VClock, VLoop
 
@@ -99,17 +100,20 @@ class CacheDriver:
 
         if self.form == "sync_fn":
             @cache(**kw)
+            @decoyed
             def f(*args, **kwargs):
                 return body(None, args, kwargs)
             self.call = lambda r, a, k: f(*a, **k)
         elif self.form == "async_fn":
             @cache(**kw)
+            @decoyed
             async def f(*args, **kwargs):
                 return body(None, args, kwargs)
             self.call = lambda r, a, k: f(*a, **k)
         elif self.form == "sync_method":
             class Holder(Recv):
                 @cache(**kw)
+                @decoyed
                 def m(self, *args, **kwargs):
                     return body(self, args, kwargs)
             self.recv = {i: Holder(i) for i in range(1, init.get("_nrecv", 3) + 1)}
@@ -117,6 +121,7 @@ class CacheDriver:
         else:
             class Holder(Recv):
                 @cache(**kw)
+                @decoyed
                 async def m(self, *args, **kwargs):
                     return body(self, args, kwargs)
             self.recv = {i: Holder(i) for i in range(1, init.get("_nrecv", 3) + 1)}
